@@ -54,8 +54,18 @@ def delta_cells(g, a):
     return 8 * oc.U * g.M[a] / g.side[a] * 2 ** g.m + 1e-9
 
 
+_BUF = {}
+
+
 def check_y(ev, g, n, m, y, ctx, viol):
-    ya = np.array(y, dtype=np.double)
+    # the caller's coordinate buffer: ONE ndarray per object, overwritten in place with each new point (a query must be
+    # answered for what the array holds now, whatever it held at the previous query)
+    key = id(ev)
+    if key not in _BUF or _BUF[key][0] is not ev or len(_BUF[key][1]) != len(y):
+        _BUF.clear()
+        _BUF[key] = (ev, np.array(y, dtype=np.double))
+    ya = _BUF[key][1]
+    ya[:] = y
     x = ev.GetInverseImage(ya)
     xp = ev.GetPreimages(np.array(y, dtype=np.double))
     x = float(x)
